@@ -16,7 +16,7 @@ META = {
 }
 
 DEST = ['absent', 'file', 'dir', 'link-file', 'link-dir', 'dangling', 'empty-dir']
-SELECT = ['single', 'other-then-colliding', 'colliding-then-other', 'range']
+SELECT = ['single', 'other-then-colliding', 'colliding-then-other', 'range', 'same-path-twice-range', 'same-path-twice-list']
 LAYOUTS = ['home', 'top', 'alt']
 
 
@@ -35,6 +35,9 @@ def scenario(dest, kind, overwrite, select, layout):
         nodes.append(W.d('/v/.Trash', 0o1777))
     nodes += K.trashed(td, 'x', K.quote(pv(path)), '2020-01-02T00:00:00', K.KINDS[kind], 2000)
     nodes += K.trashed(td, 'other', K.quote(pv(other)), '2020-01-01T00:00:00', 'file', 2100)
+    if SELECT[select].startswith('same-path-twice'):
+        # a second generation of the very same original path, trashed later
+        nodes += K.trashed(td, 'x_1', K.quote(pv(path)), '2020-01-03T00:00:00', 'file', 2200)
     dk = DEST[dest]
     if dk == 'file':
         nodes.append(W.f(path, 'EXISTING', 0o644, 700))
@@ -50,7 +53,8 @@ def scenario(dest, kind, overwrite, select, layout):
         nodes.append(W.l(path, 'nowhere', 704))
     world = W.W(mounts=K.MOUNTS, cwd=base, nodes=nodes)
     # listing sorted by date: index 0 = other (01-01), index 1 = x (01-02)
-    reply = {'single': '1', 'other-then-colliding': '0,1', 'colliding-then-other': '1,0', 'range': '0-1'}[SELECT[select]]
+    reply = {'single': '1', 'other-then-colliding': '0,1', 'colliding-then-other': '1,0', 'range': '0-1',
+             'same-path-twice-range': '1-2', 'same-path-twice-list': '2,1'}[SELECT[select]]
     args = ['--overwrite'] if overwrite else []
     steps = [{'snap': '/'}, C('restore', args, scen.env(), stdin=[reply], cwd=base), {'snap': '/'}]
     return world, steps, td, path, other
@@ -66,8 +70,24 @@ def _case(dest, kind, overwrite, select, layout):
         if r['exc']:
             return rt.fail('C06:traceback:%s:%s' % (r['exc'].split(':')[0], label), r['exc'])
         lst = K.restore_listing(r['out'])
-        if [p for (_, _, p) in lst] != [other, path]:
+        twice = SELECT[select].startswith('same-path-twice')
+        if [p for (_, _, p) in lst] != ([other, path, path] if twice else [other, path]):
             return rt.fail('C06:harness-listing', 'unexpected listing %r' % (r['out'],))
+        if twice and DEST[dest] == 'absent' and not overwrite:
+            # the first selected generation is restored, the second one must be refused: the destination exists by then
+            first, second = ('x', 'x_1') if SELECT[select].endswith('range') else ('x_1', 'x')
+            p1, p2 = scen.sub(before, td + '/files/' + first), scen.sub(before, td + '/files/' + second)
+            if scen.sub(after, path) != p1:
+                return rt.fail('C06:clobbered:restored-earlier-in-the-same-run:' + label,
+                               'two entries with the same original path selected (%s): destination is %r, the first restored one was %r' % (
+                                   SELECT[select], scen.sub(after, path), p1))
+            if scen.sub(after, td + '/files/' + second) != p2 or scen.sub(after, td + '/info/' + second + '.trashinfo') is None:
+                return rt.fail('C06:refused-but-pair-touched:same-path-twice:' + label, 'the refused second generation left the trash')
+            if r['exit'] == 0:
+                return rt.fail('C06:refused-exit-0:same-path-twice:' + label, 'exit 0 although the second generation had to be refused')
+            return rt.ok()
+        if twice:
+            return rt.ok()
         payload = scen.sub(before, td + '/files/x')
         dst_before = scen.sub(before, path)
         dst_after = scen.sub(after, path)
@@ -117,13 +137,13 @@ def _case(dest, kind, overwrite, select, layout):
 def w_main(dest: int, kind: int, overwrite: bool, select: int, layout: int) -> str:
     """
     pre: PARTITION is None or dest == PARTITION
-    pre: 0 <= dest < 7 and 0 <= kind < 6 and 0 <= select < 4 and 0 <= layout < 3
+    pre: 0 <= dest < 7 and 0 <= kind < 6 and 0 <= select < 6 and 0 <= layout < 3
     post: _ == ''
     """
-    return _case(rt.sel(dest, 7), rt.sel(kind, 6), rt.selb(overwrite), rt.sel(select, 4), rt.sel(layout, 3))
+    return _case(rt.sel(dest, 7), rt.sel(kind, 6), rt.selb(overwrite), rt.sel(select, 6), rt.sel(layout, 3))
 
 
 def obligations(tier):
     return [CH('W_dest_kind_overwrite_select_layout', MOD, 'w_main', timeout=900, partitions=list(range(7)),
                engine='W', regime='selector', encodes=K.RESTORE_FUNCS, stubs=K.STUBS,
-               bounds='7 destination kinds x 6 entry kinds x overwrite x 4 selections x 3 layouts (1008 cases)')]
+               bounds='7 destination kinds x 6 entry kinds x overwrite x 6 selections (incl. two generations of the same path in one selection) x 3 layouts')]
